@@ -12,26 +12,12 @@ package c06
 // the same oracle are run again.
 
 import (
-	"context"
-	"encoding/json"
-	"errors"
-	"fmt"
-	"net"
-	"net/http"
-	"strconv"
 	"sync"
-	"sync/atomic"
 	"testing"
 	"time"
 
-	"github.com/ipfs/ipfs-cluster/api"
-	"github.com/ipfs/ipfs-cluster/ipfsconn/ipfshttp"
 	"github.com/ipfs/ipfs-cluster/pintracker/stateless"
 
-	cid "github.com/ipfs/go-cid"
-	ma "github.com/multiformats/go-multiaddr"
-
-	"verif/harness/lib/clus"
 	"verif/harness/lib/ev"
 )
 
@@ -39,254 +25,7 @@ import (
 // this file only; tests run sequentially).
 var realConn bool
 
-// ---------------------------------------------------------------- listener
-
-type pipeListener struct {
-	ch   chan net.Conn
-	done chan struct{}
-	once sync.Once
-}
-
-func (l *pipeListener) Accept() (net.Conn, error) {
-	select {
-	case c := <-l.ch:
-		return c, nil
-	case <-l.done:
-		return nil, net.ErrClosed
-	}
-}
-func (l *pipeListener) Close() error   { l.once.Do(func() { close(l.done) }); return nil }
-func (l *pipeListener) Addr() net.Addr { return pipeAddr{} }
-
-type pipeAddr struct{}
-
-func (pipeAddr) Network() string { return "pipe" }
-func (pipeAddr) String() string  { return "pipe" }
-
-func (l *pipeListener) dial(ctx context.Context) (net.Conn, error) {
-	c, s := net.Pipe()
-	select {
-	case l.ch <- s:
-		return c, nil
-	case <-l.done:
-		c.Close()
-		s.Close()
-		return nil, errors.New("connection refused (daemon down)")
-	case <-ctx.Done():
-		c.Close()
-		s.Close()
-		return nil, ctx.Err()
-	}
-}
-
-// The connector's http.Client has no Transport of its own, so it uses
-// http.DefaultTransport. One routing transport for the process: the port of
-// the dialled address selects the daemon (bubbles run concurrently). No
-// keep-alives, so no connection goroutine outlives its bubble.
-var (
-	daemons   sync.Map // port string -> *pipeListener
-	nextPort  atomic.Int64
-	routeOnce sync.Once
-)
-
-func installRouter() {
-	routeOnce.Do(func() {
-		http.DefaultTransport = &http.Transport{
-			DisableKeepAlives: true,
-			DialContext: func(ctx context.Context, network, addr string) (net.Conn, error) {
-				_, port, _ := net.SplitHostPort(addr)
-				l, ok := daemons.Load(port)
-				if !ok {
-					return nil, errors.New("connection refused (no daemon on " + addr + ")")
-				}
-				return l.(*pipeListener).dial(ctx)
-			},
-		}
-	})
-}
-
-// ---------------------------------------------------------------- daemon
-
-// daemon serves the model pin table with go-ipfs's HTTP API semantics.
-type daemon struct{ m *clus.IPFS }
-
-func ipfsErr(w http.ResponseWriter, msg string) {
-	w.Header().Set("Content-Type", "application/json")
-	w.WriteHeader(500)
-	json.NewEncoder(w).Encode(map[string]interface{}{"Message": msg, "Code": 0, "Type": "error"})
-}
-
-func typeName(st api.IPFSPinStatus) string {
-	switch st {
-	case api.IPFSPinStatusRecursive:
-		return "recursive"
-	case api.IPFSPinStatusDirect:
-		return "direct"
-	}
-	return ""
-}
-
-func (d *daemon) ServeHTTP(w http.ResponseWriter, r *http.Request) {
-	q := r.URL.Query()
-	ctx := r.Context()
-	switch r.URL.Path {
-	case "/api/v0/pin/ls":
-		typ := q.Get("type")
-		if typ == "" {
-			typ = "all"
-		}
-		keys := map[string]map[string]string{}
-		if arg := q.Get("arg"); arg != "" {
-			c, err := cid.Decode(arg)
-			if err != nil {
-				ipfsErr(w, "invalid path \""+arg+"\"")
-				return
-			}
-			var held api.IPFSPinStatus
-			switch typ {
-			case "recursive", "direct":
-				// through the model call, so that it is recorded and can be scripted
-				p := api.PinCid(c)
-				if typ == "direct" {
-					p.MaxDepth = 0
-				}
-				st, err := d.m.PinLsCid(ctx, p)
-				if err != nil {
-					ipfsErr(w, err.Error())
-					return
-				}
-				held = st
-			case "all":
-				held = d.m.Get(c)
-			default:
-				ipfsErr(w, "invalid type '"+typ+"', must be one of {direct, indirect, recursive, all}")
-				return
-			}
-			if typeName(held) == "" {
-				msg := "path '" + arg + "' is not pinned"
-				if typ != "all" {
-					msg = "path '" + arg + "' is not pinned or pinned with a different type"
-				}
-				ipfsErr(w, msg)
-				return
-			}
-			keys[c.String()] = map[string]string{"Type": typeName(held)}
-		} else {
-			filter := typ
-			if typ == "all" {
-				filter = ""
-			}
-			m, err := d.m.PinLs(ctx, filter)
-			if err != nil {
-				ipfsErr(w, err.Error())
-				return
-			}
-			for k, st := range m {
-				keys[k] = map[string]string{"Type": typeName(st)}
-			}
-		}
-		w.Header().Set("Content-Type", "application/json")
-		json.NewEncoder(w).Encode(map[string]interface{}{"Keys": keys})
-	case "/api/v0/pin/add":
-		c, err := cid.Decode(q.Get("arg"))
-		if err != nil {
-			ipfsErr(w, "invalid path")
-			return
-		}
-		p := api.PinCid(c)
-		if q.Get("recursive") == "false" {
-			p.MaxDepth = 0
-		} else if md := q.Get("max-depth"); md != "" {
-			n, _ := strconv.Atoi(md)
-			p.MaxDepth = api.PinDepth(n)
-		}
-		if err := d.m.Pin(ctx, p); err != nil {
-			ipfsErr(w, err.Error())
-			return
-		}
-		w.Header().Set("Content-Type", "application/json")
-		json.NewEncoder(w).Encode(map[string]interface{}{"Pins": []string{c.String()}})
-	case "/api/v0/pin/rm":
-		c, err := cid.Decode(q.Get("arg"))
-		if err != nil {
-			ipfsErr(w, "invalid path")
-			return
-		}
-		if err := d.m.Unpin(ctx, c); err != nil {
-			ipfsErr(w, err.Error())
-			return
-		}
-		w.Header().Set("Content-Type", "application/json")
-		json.NewEncoder(w).Encode(map[string]interface{}{"Pins": []string{c.String()}})
-	default:
-		ipfsErr(w, "command not found: "+r.URL.Path)
-	}
-}
-
-// ---------------------------------------------------------------- wiring
-
-// connSvc is the "IPFSConnector" RPC service over the real connector.
-type connSvc struct{ c *ipfshttp.Connector }
-
-func (s *connSvc) Pin(ctx context.Context, in *api.Pin, out *struct{}) error { return s.c.Pin(ctx, in) }
-func (s *connSvc) Unpin(ctx context.Context, in *api.Pin, out *struct{}) error {
-	return s.c.Unpin(ctx, in.Cid)
-}
-func (s *connSvc) PinLsCid(ctx context.Context, in *api.Pin, out *api.IPFSPinStatus) error {
-	st, err := s.c.PinLsCid(ctx, in)
-	if err != nil {
-		return err
-	}
-	*out = st
-	return nil
-}
-func (s *connSvc) PinLs(ctx context.Context, in string, out *map[string]api.IPFSPinStatus) error {
-	m, err := s.c.PinLs(ctx, in)
-	if err != nil {
-		return err
-	}
-	*out = m
-	return nil
-}
-
-type clusterStub struct{}
-
-func (*clusterStub) SendInformersMetrics(ctx context.Context, in struct{}, out *[]*api.Metric) error {
-	return nil
-}
-
 var realClosers sync.Map // *stateless.Tracker -> func()
-
-func realService(model *clus.IPFS) (interface{}, func()) {
-	installRouter()
-	port := strconv.FormatInt(20000+nextPort.Add(1), 10)
-	l := &pipeListener{ch: make(chan net.Conn), done: make(chan struct{})}
-	daemons.Store(port, l)
-	srv := &http.Server{Handler: &daemon{m: model}}
-	srvDone := make(chan struct{})
-	go func() { defer close(srvDone); srv.Serve(l) }()
-
-	cfg := &ipfshttp.Config{}
-	cfg.Default()
-	cfg.NodeAddr = ma.StringCast("/ip4/127.0.0.1/tcp/" + port)
-	cfg.ConnectSwarmsDelay = 0
-	// operations parked by the exploration stay parked: no connector timeout
-	// may end them behind the harness's back
-	cfg.PinTimeout, cfg.UnpinTimeout, cfg.IPFSRequestTimeout = 240*time.Hour, 240*time.Hour, 240*time.Hour
-	conn, err := ipfshttp.NewConnector(cfg)
-	if err != nil {
-		panic(fmt.Sprint("NewConnector: ", err))
-	}
-	// every tenth pin/unpin the connector asks the cluster to publish metrics
-	conn.SetClient(clus.LocalRPC(map[string]interface{}{"Cluster": &clusterStub{}}))
-	return &connSvc{conn}, func() {
-		conn.Shutdown(context.Background())
-		srv.Close()
-		l.Close()
-		<-srvDone
-		daemons.Delete(port)
-	}
-}
 
 func closeReal(tr *stateless.Tracker) {
 	if f, ok := realClosers.LoadAndDelete(tr); ok {
